@@ -29,6 +29,7 @@ From ASModel Require Import Base State Orderings_gen Step Run Progress Hist Inv 
 From ASModel Require Import GenDefs Gen1 Gen2 Gen EnvDefs Env4 Env AccDefs Acc1 Acc2 Acc3 Acc4 Acc5 Acc6 Acc7 Acc.
 From ASModel Require Import ProtDefs Prot1 Prot11 Prot16 Prot Typed LinDefs Lin2 Lin Safe1 Safe2 Safe7 Safe8 Safe Main Alive.
 From ASModel Require Import LinCache LinCas1 LinCas2 LinCas3 LinCas4 LinCas5 LinCas6 LinCas LinCasR1 LinCasR4 LinCasRcu LinCasMain.
+From ASModel Require Import Stale2 Stale2Inv Stale2W.
 
 Theorem C05_exchange_iff :
   forall cf s l c cur new p d x s' l' evs nx,
@@ -88,3 +89,45 @@ Print Assumptions C05_compare_before_exchange.
 Print Assumptions C05_success_returns_current.
 Print Assumptions C05_no_aba.
 Print Assumptions C05_cas_linearizable.
+
+(** ** With the four weakened loads of [Stale2.step_stale2] (see Props/C01.v): the loads that
+    compare_and_swap and rcu perform take the same fast path, whose first read and slot scan may be
+    stale; [one_write_s2], [no_write_s2], ... are the run notions of the original theorems over
+    [step_stale2]. *)
+Theorem C05_cas_linearizable_stale2 :
+  forall cf inits progs sched t i c cur new h2 a b pa pb xa tb xb,
+    let s0 := init_state inits progs in
+    let St := fun k => StS2 cf s0 sched k in
+    RunOKS2 cf inits progs sched ->
+    nth_error (t_prog (thr s0 t)) (N.to_nat i) = Some (CCas c cur new h2) ->
+    (pa <= pb)%nat ->
+    nth_error sched pa = Some (t, xa) ->
+    t_status (thr (St pa) t) = Running -> t_stack (thr (St pa) t) = [] -> t_cmdi (thr (St pa) t) = i ->
+    cmd_enabled (St pa) (CCas c cur new h2) = true ->
+    src_val (St pa) cur = Some a -> src_val (St pa) new = Some b ->
+    nth_error sched pb = Some (tb, xb) ->
+    t_cmdi (thr (St pb) t) = i -> t_cmdi (thr (St (S pb)) t) = i + 1 ->
+    exists p d, hnd (St (S pb)) h2 = HGuard p d /\
+      ((p <> a /\
+        (exists j, (pa + 1 <= j <= pb + 1)%nat /\ mem (sh (St j)) (LStore c) = p) /\
+        no_write_s2 cf s0 sched t c pa pb)
+       \/ (p = a /\ exists j, one_write_s2 cf s0 sched t c a b pa pb j)).
+Proof. exact cas_linearizable_stale2. Qed.
+
+Theorem C05_cas_current_identity_stale2 :
+  forall cf s t t' x c cur new p d,
+    GenBound s -> ProgOK s -> alloc_ok s t' x -> stale2_ok s t' x -> Master s ->
+    In (K1 c cur new p d) (t_stack (thr s t)) -> valid cur ->
+    p = cur /\ heap (sh s) cur <> None /\
+    (In (K1 c cur new p d) (t_stack (thr (fst (step_stale2 cf s t' x)) t)) ->
+     heap (sh (fst (step_stale2 cf s t' x))) cur = heap (sh s) cur).
+Proof. exact cas_current_identity_stale2. Qed.
+
+(** Non-vacuity: a run within [RunOKS2] in which the first read inside compare_and_swap is answered
+    with a value that was never stored; the exchange still succeeds with exactly one write. *)
+Theorem C05_stale2_scope_inhabited : RunOKS2 sz2_cf sz2_inits sz2_progs sz2_sched.
+Proof. exact RunOKS2_example_z. Qed.
+
+Print Assumptions C05_cas_linearizable_stale2.
+Print Assumptions C05_cas_current_identity_stale2.
+Print Assumptions C05_stale2_scope_inhabited.
